@@ -1,4 +1,6 @@
 import QuillModel.Backend.ConsProofsReclaim
+import QuillModel.Backend.ConsProofsQuiesce
+import QuillModel.Backend.ConsProofsUnplaced
 import QuillModel.Props.C03
 /-!
 # C08 — dropping queue: a statement is delivered intact or reported dropped; the counts add up
@@ -100,6 +102,58 @@ theorem C08_log_call_outcome (s : BSt) (hd : s.cfg.dropping = true) (a : Nat) (s
          updAt (ctrs (ensureCtx s a).1) (ensureCtx s a).2 (fun c => (c.1 + 1, c.2.1 + 1, c.2.2))) :=
   enqFlow_log_outcome s hd a st hk
 
+/-! ### never both: a discarded statement is never written -/
+
+/-- **A refused log call leaves its id carried by nothing.** An ordinary log call (`LOG_DYNAMIC`, the call that
+    returns the bool) by an idle live actor through a valid logger, whose level passes, not parked by a stall, on a
+    dropping queue: if the reservation fails (the `ret=0` outcome of `C08_log_call_outcome`), then after the call its id
+    `s.nextId` is *unplaced* — below the new `nextId`, and no statement with that id is in any accepted history or
+    parked call (`tot … = 0`). -/
+theorem C08_dropped_call_id_unplaced (s : BSt) (hb : InvB s) (hd : s.cfg.dropping = true) (a g lvl len lgi : Nat)
+    (hlg : loggerOf s g = some lgi) (hidle : idleActor s a = true) (hlvl : shouldLog lvl (s.lgOf lgi).level = true)
+    (hns : ((s.actor a).map (·.stallArmed)).getD false = false)
+    (hf : ∀ st : Stmt, st.kind = .log → st.id = s.nextId → st.size = stmtSize s.cfg .log s.nextId len true (s.lgOf lgi).gid →
+      (tryEnq (ensureCtx { s with nextId := s.nextId + 1 } a).1 (ensureCtx { s with nextId := s.nextId + 1 } a).2 st).2 = false) :
+    Unplaced (applyFront s (.log a g lvl len true)).1 s.nextId := by
+  have e1 : applyFront s (.log a g lvl len true) =
+      noteCall (frontCall { s with nextId := s.nextId + 1 } a lgi .log lvl len 0 true s.nextId) a g := by
+    simp only [applyFront]
+    rw [withLogger_eq s a g lgi _ hlg hidle]
+    have : shouldLog lvl (({ s with nextId := s.nextId + 1 } : BSt).lgOf lgi).level = true := hlvl
+    rw [if_pos this]; rfl
+  rw [e1]
+  apply Unplaced.noteCall
+  rw [frontCall_eq_enqFlow ({ s with nextId := s.nextId + 1 } : BSt) a lgi .log lvl len 0 true s.nextId false hns]
+  exact enqFlow_dropped_unplaced (hb.toφ.room_fresh a _ rfl) hd rfl 0 (Or.inl rfl) true true (hf _ rfl rfl rfl)
+
+/-- the same for a call that was stalled after reading its timestamp and is resumed: if the reservation then fails,
+    the id it was given is unplaced afterwards -/
+theorem C08_dropped_stalled_call_id_unplaced (s : BSt) (hb : InvB s) (hd : s.cfg.dropping = true) (a : Nat) (x : Actor)
+    (st : Stmt) (cont : Nat) (hx : s.actor a = some x) (hp : x.pend = .stall st cont) (hk : isLogKind st.kind = true)
+    (hc : cont = 0 ∨ cont = 5) (hf : (tryEnq (ensureCtx s a).1 (ensureCtx s a).2 st).2 = false) :
+    Unplaced (resume s a).1 st.id := by
+  have e : resume s a = enqFlow s a st cont true false := by
+    unfold Backend.resume; simp [hx, hp]
+  rw [e]
+  exact enqFlow_dropped_unplaced (hb.toφ.room_parked a x hx st st (by simp [hp, pendL]) (fun _ => rfl)) hd hk cont hc
+    true false hf
+
+/-- **An unplaced id stays unplaced**: ids are allocated once (`nextId` only grows) and a statement object only ever
+    moves from a parked call into one accepted history — so an id that nothing carries is never carried again,
+    whatever the schedule. -/
+theorem C08_unplaced_forever (s : BSt) (hb : InvB s) (id : Nat) (u : Unplaced s id) (ops : List Op) :
+    Unplaced (runOps s ops) id := Unplaced.run hb u ops
+
+/-- **Delivered XOR reported dropped.** From any state satisfying the invariants (every reachable state), an id that
+    is unplaced — in particular the id of a call that returned `false` (two theorems above), whose drop is counted in
+    `discarded` and reported (`C08_dropped_equals_reported_plus_pending`) — has no ordinary `write` event at any sink in
+    the whole history, now and after every further schedule. Conversely a call that returned `true` put its statement
+    into an accepted history (`C08_log_call_outcome`), from where C03 delivers it at most once per sink and never
+    counts it as dropped (`ctrs` unchanged). -/
+theorem C08_discarded_never_written (s : BSt) (h : Inv s) (id : Nat) (u : Unplaced s id) (ops : List Op) (sid : Nat) :
+    wcount (runOps s ops).log sid id = 0 :=
+  h.unplaced_never_written id u ops sid
+
 /-- **Control requests are never discarded and never counted.** A flush / backtrace-init / backtrace-flush /
     logger-removal request (not an `Event::Log`; `cont ∈ {1,2,3,4}`) on a dropping queue touches no counter at all,
     and when the reservation fails nothing is appended and the caller is parked with `Pend.retry st cont`: it will
@@ -147,18 +201,19 @@ theorem C08_cleanup_after_check (s : BSt) (j : Nat)
     (s.th j).removed = true ∨ ((cleanupContexts (checkFailures (fun x _ => x) s)).th j).fail = 0 :=
   cleanup_after_check s j hr
 
-/- Full statement wanted: "at quiescence, after an idle poll, `fail = 0` for every registered context, hence
-   `Σ discarded = reported`". Proved: the idle branch of `_poll` (everything after the read pass found nothing), run
-   with an injection runner that takes no frontend step (e.g. `runInj []`), from a state whose cache covers the
-   registry, ends with `fail = 0` for every context still registered; `poll inj s` IS that branch when the read pass
-   counted no event (`poll_idle`). Missing: that the read pass itself (`populate`, which refreshes the cache) leaves the
-   cache covering the registry when no thread registers during it — an invariant about `newFlag` not proved here. -/
-/-- **The idle pass drains the failure counters** (`_partial`, see the comment above). -/
-theorem C08_idle_pass_drains_counters_partial (inj : BSt → Nat → BSt) (hq : QuietInj inj) (s : BSt)
-    (hidle : (populate inj s).2 = 0) (hc : ∀ i ∈ (populate inj s).1.registry, i ∈ (populate inj s).1.cache)
-    (i : Nat) (hi : i ∈ (poll inj s).registry) : ((poll inj s).th i).fail = 0 := by
-  rw [poll_idle inj s hidle] at hi ⊢
-  exact idleTail_clears hq _ hc i hi
+/-- **The cache covers the registry unless a thread registered since the last refresh** — in every reachable state
+    of every schedule (`CovK s`: `newFlag = false → registry ⊆ cache`). -/
+theorem C08_cache_covers_registry (s0 : BSt) (h0 : CovK s0) (ops : List Op) : CovK (runOps s0 ops) :=
+  runOps_closed CovK.closed ops s0 h0
+
+/-- **The idle pass drains the failure counters.** From any state satisfying the cache invariant (every reachable
+    state), a `_poll` whose read pass finds no event (`(populate inj s).2 = 0`), run with an injection runner that takes
+    no frontend step (`QuietInj`, e.g. the empty table), ends with `fail = 0` for every context still registered: the
+    read pass refreshed the cache, so `_check_failure_counter` visited every registered context, and nothing that
+    follows in the pass (emptiness check, context and logger clean-up) raises a counter. -/
+theorem C08_idle_pass_drains_counters (inj : BSt → Nat → BSt) (hq : QuietInj inj) (s : BSt) (hk : CovK s)
+    (hidle : (populate inj s).2 = 0) (i : Nat) (hi : i ∈ (poll inj s).registry) : ((poll inj s).th i).fail = 0 :=
+  poll_idle_clears hq s hk hidle i hi
 
 /-- the empty injection table takes no frontend step -/
 theorem C08_empty_table_quiet : QuietInj (runInj []) := runInj_nil_quiet
@@ -168,6 +223,44 @@ theorem C08_check_clears_counters (s : BSt) (i : Nat) (hi : i ∈ s.cache) :
     ((checkFailures (fun x _ => x) s).th i).fail = 0 := by
   rw [checkFailures_quiet]
   exact (cfFold_clears s.cache s).2.1 i hi
+
+/-- **At quiescence everything discarded has been reported** (dropping queue, repaired clean-up). Take any schedule
+    `ops` from a freshly started system and let the backend then make one poll with no frontend step inside it
+    (`Op.poll []`) that finds nothing to read (an idle pass). Afterwards every failure counter of every context ever
+    created is zero — registered ones were just reported, reclaimed ones had been reported before they were reclaimed —
+    and therefore `Σ discarded = reported`: every refused log call has been reported through the notifier, none twice,
+    none lost. -/
+theorem C08_quiescent_all_reported (s0 : BSt) (hf : Fresh s0) (hs : Started s0) (hreg : s0.registry = [])
+    (hd : s0.cfg.dropping = true) (hk : s0.cfg.cleanupKeepsUnreported = true) (ops : List Op)
+    (hgone : (runOps s0 ops).backendGone = false)
+    (hidle : (populate (runInj []) { runOps s0 ops with siteCnt := [] }).2 = 0) :
+    (∀ c ∈ ctrs (runOps s0 (ops ++ [.poll []])), c.1 = 0) ∧
+    ((ctrs (runOps s0 (ops ++ [.poll []]))).map (fun c => c.2.1)).sum = (runOps s0 (ops ++ [.poll []])).reported := by
+  have hcov0 : CovK s0 := fun _ i hi => by rw [hreg] at hi; cases hi
+  have hstep : runOps s0 (ops ++ [.poll []]) = poll (runInj []) { runOps s0 ops with siteCnt := [] } := by
+    have e1 : runOps s0 (ops ++ [.poll []]) = (applyOp (runOps s0 ops) (.poll [])).1 := by
+      unfold runOps; rw [List.foldl_append]; rfl
+    rw [e1]
+    show (if (runOps s0 ops).backendGone = true then ((runOps s0 ops), "noop")
+      else (poll (runInj []) { runOps s0 ops with siteCnt := [] }, "ev")).1 = _
+    rw [hgone]; rfl
+  have hK := runOps_closed InvK.closed (ops ++ [.poll []]) s0 (C08_fresh_reclaim_inv s0 hf hk)
+  have hcov : CovK ({ runOps s0 ops with siteCnt := [] } : BSt) :=
+    (C08_cache_covers_registry s0 hcov0 ops).of_same rfl rfl rfl
+  have hzero : ∀ c ∈ ctrs (runOps s0 (ops ++ [.poll []])), c.1 = 0 := by
+    intro c hc
+    simp only [ctrs, List.mem_map] at hc
+    obtain ⟨t, ht, rfl⟩ := hc
+    obtain ⟨i, hi, e⟩ := List.mem_iff_getElem.mp ht
+    have hth : t = (runOps s0 (ops ++ [.poll []])).th i := by rw [th_eq_getElem _ i hi, e]
+    rw [hth]
+    rcases hK.a.reg i hi with hr | hr
+    · rw [hstep] at hr ⊢
+      exact C08_idle_pass_drains_counters (runInj []) runInj_nil_quiet _ hcov hidle i hr
+    · exact hK.r.zero i hr
+  refine ⟨hzero, ?_⟩
+  have hsum := (C08_dropped_equals_reported_plus_pending s0 (C08_started_inv s0 hs) hd (ops ++ [.poll []])).2
+  rw [hsum, sum_map_const _ _ 0 hzero]; simp
 
 /-! ### witnesses: the two ways a drop count is lost with a reclaimed context -/
 
@@ -234,5 +327,18 @@ example :
     (applyOp (runOps (c08Init true true) (f17Sched.take 2)) (.front (.log 1 0 4 300 true))).2 = "id=0 ret=1 ev=1 bytes=338" ∧
     (applyOp (runOps (c08Init true true) (f17Sched.take 3)) (.front (.log 1 0 4 300 true))).2 = "id=1 ret=0 ev=1 bytes=0" := by
   decide
+
+/-- non-vacuity of the quiescence theorem: after the F24 schedule the next poll is idle (its read pass finds nothing),
+    and after it the two discarded statements are both reported -/
+example : (runOps (c08Init true true) f23Sched).backendGone = false ∧
+    (populate (runInj []) { runOps (c08Init true true) f23Sched with siteCnt := [] }).2 = 0 ∧
+    ((ctrs (runOps (c08Init true true) (f23Sched ++ [.poll []]))).map (fun c => c.2.1)).sum = 2 ∧
+    (runOps (c08Init true true) (f23Sched ++ [.poll []])).reported = 2 := by decide
+
+/-- non-vacuity of the never-both theorems: in the F17 schedule the second call (id 1) was refused; its id is unplaced
+    and unwritten at the end, while id 0 was accepted and written once -/
+example : tot (runOps (c08Init true true) f17Sched) 1 = 0 ∧ 1 < (runOps (c08Init true true) f17Sched).nextId ∧
+    wcount (runOps (c08Init true true) f17Sched).log 0 1 = 0 ∧ tot (runOps (c08Init true true) f17Sched) 0 = 1 ∧
+    wcount (runOps (c08Init true true) f17Sched).log 0 0 = 1 := by decide
 
 end Backend
